@@ -292,6 +292,9 @@ class Interp:
             if op in ("==", "!="):
                 if l[0] == "int" and r[0] == "int":
                     eq = l[1] == r[1]
+                elif l[0] == "ptr" or r[0] == "ptr":
+                    # the address of a variable or member: never NULL, equal only to itself
+                    eq = l == r
                 elif hasattr(self.dom, "equal") and (l[0] not in ("null", "node", "int") or r[0] not in ("null", "node", "int")):
                     eq = self.dom.equal(self, l, r, line(e))
                 else:
